@@ -183,8 +183,13 @@ func ruleRC3() Rule {
 								if !ok || len(as.Lhs) != 1 || len(as.Rhs) != 1 {
 									return true
 								}
-								if l, ok := as.Lhs[0].(*ast.Ident); ok && (gi.Uses[l] == obj || gi.Defs[l] == obj) && blankF != nil && core.FieldOf(gi, as.Rhs[0]) == blankF {
-									gated = true
+								if l, ok := as.Lhs[0].(*ast.Ident); ok && (gi.Uses[l] == obj || gi.Defs[l] == obj) && blankF != nil {
+									// the flag itself, or a conjunction that contains it (`n != 0 && … && a.blank`)
+									for _, rc := range conj(as.Rhs[0]) {
+										if core.FieldOf(gi, rc) == blankF {
+											gated = true
+										}
+									}
 								}
 								return true
 							})
@@ -2502,6 +2507,146 @@ func ruleLB3() Rule {
 				rr.OK(f, key, f.Pos(), "marked", fmt.Sprintf("each of the %d successful returns is reached with mark() called after the last comment()", nret))
 			default:
 				rr.Bad(f, key, bad, "linebreak flushes a comment and returns without mark(): the next token (the closing back-quote that ends the comment) is recorded at the position of the `#`, so the node that ends there is too short")
+			}
+		}}
+}
+
+// ---------------------------------------------------------------------------
+// GT1: the code at a label sees the variables of the goto.
+
+func ruleGT1() Rule {
+	return Rule{ID: "GT1", Kind: "must", Floor: 3,
+		Doc: "the lexer's scanners leave through shared labels (`goto Error`) whose code examines local variables - above all the error just returned by read(). At every goto, each local variable the labelled code reads is the very variable visible under that name at the goto: an inner `err :=` (a helper's result tested in an `if … := …; err != nil { goto Error }`) shadows the one the label tests, which still holds the value of an earlier, successful read - the failure is then reported as nothing at all (an unterminated here-document accepted with a nil error)",
+		Run: func(c *Ctx, rr *core.RuleResult) {
+			for _, f := range c.funcsOfPkg("parser", false) {
+				if f.Decl == nil || f.Body == nil {
+					continue
+				}
+				info := f.Info()
+				labels := map[string]*ast.LabeledStmt{}
+				f.OwnNodes(func(n ast.Node) bool {
+					if ls, ok := n.(*ast.LabeledStmt); ok {
+						labels[ls.Label.Name] = ls
+					}
+					return true
+				})
+				if len(labels) == 0 {
+					continue
+				}
+				// what the code at a label reads: identifiers used from the labelled statement to
+				// the end of its block
+				readsAt := func(ls *ast.LabeledStmt) map[string]types.Object {
+					out := map[string]types.Object{}
+					var list []ast.Stmt
+					switch blk := c.P.Parent(ls).(type) {
+					case *ast.BlockStmt:
+						list = blk.List
+					case *ast.CaseClause:
+						list = blk.Body
+					}
+					on := false
+					for _, st := range list {
+						if st == ast.Stmt(ls) {
+							on = true
+						}
+						if !on {
+							continue
+						}
+						ast.Inspect(st, func(x ast.Node) bool {
+							if id, ok := x.(*ast.Ident); ok {
+								// variables that exist when control arrives (declared before the label), not
+								// the ones the labelled code declares for itself
+								if v, isVar := info.Uses[id].(*types.Var); isVar && !v.IsField() && v.Pkg() != nil && v.Parent() != v.Pkg().Scope() && v.Pos() < ls.Pos() {
+									out[id.Name] = v
+								}
+							}
+							return true
+						})
+					}
+					return out
+				}
+				f.OwnNodes(func(n ast.Node) bool {
+					br, ok := n.(*ast.BranchStmt)
+					if !ok || br.Tok != token.GOTO || br.Label == nil {
+						return true
+					}
+					ls := labels[br.Label.Name]
+					if ls == nil {
+						return true
+					}
+					// loops are labelled too; only labels that are jumped to by goto matter, and only
+					// forward ones (the labelled code runs next)
+					key := fmt.Sprintf("%s|goto %s at line %d", f.Name, br.Label.Name, c.P.Fset.Position(br.Pos()).Line-c.P.Fset.Position(f.Pos()).Line)
+					var shadowed []string
+					scope := f.Pkg.Types.Scope().Innermost(br.Pos())
+					for name, want := range readsAt(ls) {
+						if scope == nil {
+							continue
+						}
+						_, got := scope.LookupParent(name, br.Pos())
+						if got != nil && got != types.Object(want) {
+							if _, isVar := got.(*types.Var); isVar {
+								shadowed = append(shadowed, name)
+							}
+						}
+					}
+					sort.Strings(shadowed)
+					if len(shadowed) == 0 {
+						rr.OK(f, key, br.Pos(), "same-variables", "the labelled code reads the variables visible at the goto")
+					} else {
+						rr.Bad(f, key, br.Pos(), fmt.Sprintf("at this goto the name %s denotes an inner variable, the code at %s reads the outer one: the value that made control come here (the error of the failed read) is not the one examined, so the fault can go unreported", strings.Join(shadowed, ", "), br.Label.Name))
+					}
+					return true
+				})
+			}
+		}}
+}
+
+// ---------------------------------------------------------------------------
+// W1: the raw scanner continues a word that has been begun.
+
+func ruleW1() Rule {
+	return Rule{ID: "W1", Kind: "must-not", Floor: 1,
+		Doc: "linebreak() may return with the next word already begun (a backslash-quoted character met while skipping newlines is scanned there), and the raw token scanner continues it; so the raw scanner itself never discards the word collected so far (no assignment of nil, an empty literal or a zero-length reslice to the lexer's word) - the word is reset by whoever has consumed it (emit, the substitution of an alias)",
+		Run: func(c *Ctx, rr *core.RuleResult) {
+			raw := c.mustFn(rr, "parser.(*lexer).scanRawToken")
+			word := c.fieldVar("parser", "lexer", "word")
+			if raw == nil || word == nil {
+				return
+			}
+			info := raw.Info()
+			bad := token.NoPos
+			raw.OwnNodes(func(n ast.Node) bool {
+				as, ok := n.(*ast.AssignStmt)
+				if !ok || len(as.Lhs) != len(as.Rhs) {
+					return true
+				}
+				for i, l := range as.Lhs {
+					if _, isSel := ast.Unparen(l).(*ast.SelectorExpr); !isSel || core.FieldOf(info, l) != word {
+						continue
+					}
+					switch r := ast.Unparen(as.Rhs[i]).(type) {
+					case *ast.Ident:
+						if r.Name == "nil" {
+							bad = as.Pos()
+						}
+					case *ast.CompositeLit:
+						if len(r.Elts) == 0 {
+							bad = as.Pos()
+						}
+					case *ast.SliceExpr:
+						if v, isC := constInt(info, r.High); r.High != nil && isC && v == 0 {
+							bad = as.Pos()
+						}
+					}
+				}
+				return true
+			})
+			key := raw.Name + "|begun word kept"
+			if bad == token.NoPos {
+				rr.OK(raw, key, raw.Pos(), "append-only", "the raw scanner only appends to the word")
+			} else {
+				rr.Bad(raw, key, bad, "the raw scanner discards the word collected so far: a word whose first character was scanned by linebreak() (`true && \\*\\x`) loses that character")
 			}
 		}}
 }
